@@ -8,8 +8,10 @@ payload = {"mode": "nojit" | "checked" | "default", "per_child": n, "cases": [ca
   default  numba's default configuration (unchecked indexing), run in child processes (`per_child`
            cases per child; 1 for cases that may write out of bounds) so that heap corruption cannot
            reach the worker
-case = {"rows","cols","ph","pw","ops":[{"op": "arr","a":[[..]]} | {"op":"cl","cs":[[n,v,h],..]} |
-        {"op":"read"} | {"op":"frame"} | {"op":"rmall"} | {"op":"rm","ids":[..]} | {"op":"reset"}]}
+case = {"rows","cols","ph","pw","reset_via": "charge"|"detector",
+        "ops":[{"op": "arr","a":[[..]],"dt":"f8"|"f4"|"f2"} | {"op":"cl","cs":[[n,v,h],..]} |
+        {"op":"read"} (.array) | {"op":"xr"} (.to_xarray()) | {"op":"np"} (np.asarray(charge)) | {"op":"frame"} | {"op":"rmall"} | {"op":"rm","ids":[..]} |
+        {"op":"reset"} (charge.empty() or detector.empty())]}
 result per case = {"trace": [{"o": "unit"|"raise"|"corrupt"|"arr", "m": [[float]], "f": [[id,n,v,h],..]}, ...],
                    "crashed": bool}
 All numbers are Python floats with exact (dyadic) values; json round-trips them exactly.
@@ -42,7 +44,8 @@ def run_case(case, stop_on_corrupt=True):
         rec = {"o": "unit"}
         try:
             if k == "arr":
-                ch.add_charge_array(np.array(o["a"], dtype=float))
+                dt = {"f8": np.float64, "f4": np.float32, "f2": np.float16}[o.get("dt", "f8")]
+                ch.add_charge_array(np.array(o["a"], dtype=dt))
             elif k == "cl":
                 cs = o["cs"]
                 n = len(cs)
@@ -56,8 +59,9 @@ def run_case(case, stop_on_corrupt=True):
                     init_z_position=z.copy(), init_ver_velocity=z.copy(), init_hor_velocity=z.copy(),
                     init_z_velocity=z.copy(),
                 )
-            elif k == "read":
-                m = np.array(ch.array, dtype=float, copy=True)
+            elif k in ("read", "xr", "np"):
+                src = ch.array if k == "read" else (ch.to_xarray().values if k == "xr" else np.asarray(ch))
+                m = np.array(src, dtype=float, copy=True)
                 if m.ndim != 2:
                     rec = {"o": "raise", "cls": f"ndim{m.ndim}"}
                 else:
@@ -69,7 +73,10 @@ def run_case(case, stop_on_corrupt=True):
             elif k == "rm":
                 ch.remove_from_frame(list(o["ids"]))
             elif k == "reset":
-                ch.empty()
+                if case.get("reset_via") == "detector":
+                    det.empty()
+                else:
+                    ch.empty()
             else:
                 raise RuntimeError(f"unknown op {k}")
         except IndexError as ex:
